@@ -3,6 +3,7 @@ import PilotaModel.Lemmas.SkipBin
 import PilotaModel.Props.C01
 import PilotaModel.Lemmas.TolerantK
 import PilotaModel.Lemmas.KeepRT
+import PilotaModel.Lemmas.KeepFwd
 /-
   C13 — retained unknown fields survive re-encoding unchanged.
 
@@ -166,6 +167,32 @@ theorem keep_roundtrip (er ew : Endian) (dpr dpw : Option Nat) (hedr : EndianOk 
     have := (corr_all ew dpw dw hedw g).1 (.ref n) w' rest' (.ok w) hw' (hG g hg)
     simpa [withRest, mapOut] using this
 
+/-- **The retaining reader accepts every typed value within its skipper's depth budget** (`dpr = none`, the unchecked
+codec: no limit), with the same result for every sufficiently large recursion budget. -/
+theorem keep_accepts (dw : Doc) (keep : String → Field → Bool) (dpr : Option Nat) (hd : dw.fieldsOk)
+    (f : Nat) (ty : STy) (w : TVal) (ht : hasTy dw f ty w = true) (ha : admits dpr w.need) :
+    ∃ w' B, ∀ fK, B ≤ fK → projTyK (restrict dw keep) dpr fK ty w = some (.ok w') :=
+  keep_accepts_all dw keep dpr hd f ty w ht ((admitsB_iff dpr _).mpr ha)
+
+/-- **C13 as one statement, bytes level, no acceptance hypothesis**: for every writer document with distinct field ids per
+struct, every reader that lacks any set of struct fields, every typed value `w` of a declared type nested no deeper than
+the reader's skipper budget, every pair of binary-family protocols and all trailing inputs: the retaining reader decodes
+the encoding of `w` to some `w'` leaving the trailing input, and (when `w'` is a Rust value) the full reader decodes the
+re-encoding of `w'` to exactly `w`, leaving its trailing input - for all sufficiently large recursion budgets. -/
+theorem keep_roundtrip_total (er ew : Endian) (dpr dpw : Option Nat) (hedr : EndianOk er dpr) (hedw : EndianOk ew dpw)
+    (dw : Doc) (keep : String → Field → Bool) (hd : dw.fieldsOk) (n : String) (f : Nat) (w : TVal)
+    (ht : hasTy dw f (.ref n) w = true) (hw : w.wt = true) (ha : admits dpr w.need) (rest rest' : Bytes) :
+    ∃ w' B, (∀ fK, B ≤ fK → decTyK er dpr (restrict dw keep) fK (.ref n) (Binary.enc er w ++ rest) = .ok (w', rest)) ∧
+      (w'.wt = true → ∃ G, ∀ g, G ≤ g → decTy (binRd ew dpw) dw g (.ref n) (Binary.enc ew w' ++ rest') = .ok (w, rest')) := by
+  obtain ⟨w', B, hB⟩ := keep_accepts dw keep dpr hd f (.ref n) w ht ha
+  refine ⟨w', B, fun fK hf => ?_, fun hw' => ?_⟩
+  · have := keep_tolerant er dpr (restrict dw keep) (.ref n) w rest fK (.ok w') hedr hw (hB fK hf)
+    simpa [withRest, mapOut] using this
+  · obtain ⟨_, G, hG⟩ := keep_roundtrip_value dw keep dpr dpw hd f (.ref n) w w' B ht (hB B (Nat.le_refl _))
+    refine ⟨G, fun g hg => ?_⟩
+    have := (corr_all ew dpw dw hedw g).1 (.ref n) w' rest' (.ok w) hw' (hG g hg)
+    simpa [withRest, mapOut] using this
+
 /-! non-vacuity of `keep_roundtrip`: the writer's document has a recursive struct with a default, a list of itself and a
 map to a second struct; the reader lacks fields 2 and 4 of `S` and field 1 of `T`; what it returns differs from the
 original (retained fields moved behind the known ones) and is read back as the original -/
@@ -179,7 +206,9 @@ def wOrig : TVal := .struct (.cons 1 (.i32 5) (.cons 2 (.list .struct (.cons wIn
   (.cons 4 (.map .i32 .struct (.cons (.i32 9) wT .nil)) .nil))))
 def wBack : TVal := .struct (.cons 1 (.i32 5) (.cons 3 (.bin [104]) (.cons 2 (.list .struct (.cons wInner .nil))
   (.cons 4 (.map .i32 .struct (.cons (.i32 9) wT .nil)) .nil))))
-example : hasTy wDoc 8 (.ref "S") wOrig = true ∧ wOrig.wt = true ∧ wBack.wt = true := by decide +kernel
+example : hasTy wDoc 8 (.ref "S") wOrig = true ∧ wOrig.wt = true ∧ wBack.wt = true ∧ admits (some skipDepth) wOrig.need := by
+  refine ⟨by decide +kernel, by decide +kernel, by decide +kernel, ?_⟩
+  simp [admits, skipDepth, wOrig, wInner, wT, TVal.need, TVals.need, TFields.need, TPairs.need]
 example : projTyK (restrict wDoc wKeep) (some 64) 12 (.ref "S") wOrig = some (.ok wBack) ∧ wBack ≠ wOrig := by decide
 example : projTy wDoc (some 64) 20 (.ref "S") wBack = some (.ok wOrig) := by decide +kernel
 example : wDoc.fieldsOk := by
